@@ -410,8 +410,10 @@ class Bot:
         if self._stop_at_rounds and has_just_rung_rounds and not self._is_ringing_opening_row:
             self._should_stand = True
 
-        # Set any early calls specified by the row generator to be called at the start of the next
-        # row
+        # Calls belong to one row: forget those of the row that has just been rung (rows of rounds
+        # would otherwise repeat them), then set any early calls specified by the row generator to
+        # be called at the start of the next row
+        self._calls = []
         if self._rounds_left_before_method is not None:
             self._calls = self.row_generator.early_calls().get(self._rounds_left_before_method) or []
 
